@@ -17,7 +17,7 @@ grep -q "^use apollo_smith\|apollo_smith::" "$DEMO" && crate=apollo-smith
 name="seeded_demo"
 cp "$DEMO" "crates/$crate/examples/$name.rs"
 echo "== demo WITHOUT the change (expect exit 0)"
-cargo run -q --offline -j 8 -p $crate --example $name >/tmp/confirm_demo_without.log 2>&1; without=$?
+cargo run -q --offline -j 8 ${CONFIRM_RELEASE:+--release} -p $crate --example $name >/tmp/confirm_demo_without.log 2>&1; without=$?
 echo "   exit $without"
 echo "== apply"
 git apply "$PATCH" || { echo "PATCH DOES NOT APPLY"; exit 3; }
@@ -28,7 +28,7 @@ for c in $(grep -o "crates/apollo-[a-z]*" "$PATCH" | sort -u | sed 's#crates/##'
 done
 echo "   tests exit $tests_ok"
 echo "== demo WITH the change (expect non-zero)"
-cargo run -q --offline -j 8 -p $crate --example $name >/tmp/confirm_demo_with.log 2>&1; with=$?
+cargo run -q --offline -j 8 ${CONFIRM_RELEASE:+--release} -p $crate --example $name >/tmp/confirm_demo_with.log 2>&1; with=$?
 echo "   exit $with"
 git checkout -q -- . ; rm -f "crates/$crate/examples/$name.rs"
 if [ $without -eq 0 ] && [ $tests_ok -eq 0 ] && [ $with -ne 0 ]; then echo "CONFIRMED"; exit 0; else echo "NOT CONFIRMED (without=$without tests=$tests_ok with=$with)"; exit 1; fi
